@@ -20,6 +20,7 @@ import (
 	"verif/checks/c11"
 	"verif/checks/c12"
 	"verif/checks/c13"
+	"verif/checks/c14"
 	"verif/checks/c15"
 	"verif/checks/c16"
 	"verif/checks/c17"
@@ -47,6 +48,7 @@ var checks = map[string]check{
 	"C11": {"model_checking", c11.Run, c11.Replay},
 	"C12": {"model_checking", c12.Run, c12.Replay},
 	"C13": {"fault_enumeration", c13.Run, c13.Replay},
+	"C14": {"fault_enumeration", c14.Run, c14.Replay},
 	"C15": {"exploration", c15.Run, c15.Replay},
 	"C16": {"exploration", c16.Run, c16.Replay},
 	"C17": {"exploration", c17.Run, c17.Replay},
